@@ -128,6 +128,39 @@ theorem streams_are_prefixes (k : Nat) (schs : List Sched) :
     · rw [g, hs]; simp
     · rw [g, hs]; simp [List.range_succ]
 
+/-! ### the property's own wording
+
+`offered` = the values the producer has put on the bond so far (the completed writes plus the one
+it is holding valid for); every consumer's received stream is a prefix of it and at most one value
+behind — `forall i : received(c_i) is a prefix of sent and |sent| - |received(c_i)| <= 1`. -/
+
+def Isa.offered (s : Isa.St) : List Nat := if s.valid then s.sent ++ [s.next] else s.sent
+def Rtl.offered (s : Rtl.St) : List Nat := if (s.waitsm && s.oVal) then s.sent ++ [s.next] else s.sent
+
+theorem quantifier_isa (k : Nat) (schs : List Sched) :
+    let s := Isa.run (Isa.init k) schs
+    ∀ c ∈ s.cs, c.got <+: Isa.offered s ∧ (Isa.offered s).length - c.got.length ≤ 1 := by
+  intro s c hc
+  obtain ⟨_, hall⟩ := exactly_once_isa k schs
+  unfold Isa.offered
+  rcases hall c hc with g | ⟨hv, g⟩
+  · cases hv : (Isa.run (Isa.init k) schs).valid
+    · exact ⟨by simp only [s, hv, g]; exact List.prefix_refl _, by simp [s, hv, g]⟩
+    · exact ⟨by simp only [s, hv, g, if_true]; exact List.prefix_append _ _, by simp [s, hv, g]⟩
+  · exact ⟨by simp only [s, hv, g, if_true]; exact List.prefix_refl _, by simp [s, hv, g]⟩
+
+theorem quantifier_rtl (k : Nat) (schs : List Sched) :
+    let s := Rtl.run (Rtl.init k) schs
+    ∀ c ∈ s.cs, c.got <+: Rtl.offered s ∧ (Rtl.offered s).length - c.got.length ≤ 1 := by
+  intro s c hc
+  obtain ⟨_, hall⟩ := exactly_once_rtl k schs
+  unfold Rtl.offered
+  rcases hall c hc with g | ⟨hv, g⟩
+  · cases hv : ((Rtl.run (Rtl.init k) schs).waitsm && (Rtl.run (Rtl.init k) schs).oVal)
+    · exact ⟨by simp only [s, hv, g]; exact List.prefix_refl _, by simp [s, hv, g]⟩
+    · exact ⟨by simp only [s, hv, g, if_true]; exact List.prefix_append _ _, by simp [s, hv, g]⟩
+  · exact ⟨by simp only [s, hv, g, if_true]; exact List.prefix_refl _, by simp [s, hv, g]⟩
+
 /-! ### liveness: no deadlock under any fair schedule
 
 `Fair k σ`: in the infinite schedule σ the producer and each of the k consumers reach their IO
